@@ -530,14 +530,7 @@ impl<'a> Model<'a> {
                 self.handle_ambiguous.push(false);
             }
             if let Some(r) = rec.request {
-                let reqs = &self.v.trace.requests;
-                self.handle_ambiguous[h] = (0..reqs.len()).any(|q| {
-                    q != r
-                        && reqs[q].op >= self.epoch_first_op
-                        && reqs[q].op < self.ops_started
-                        && reqs[q].packet == reqs[r].packet
-                        && matches!(self.v.trace.ops[reqs[q].op].res, OpRes::Cancelled { .. } | OpRes::Err(ErrKind::Transport))
-                });
+                self.handle_ambiguous[h] = self.has_uncertain_twin(r);
                 if self.handle_ambiguous[h] {
                     self.stats.ambiguous_handles += 1;
                 }
@@ -690,13 +683,45 @@ impl<'a> Model<'a> {
         }
     }
 
+    /// Would the two requests put identical packets (identifier aside) on the wire? For publishes
+    /// the QoS is the one left after auto-downgrade on the connection the request was made on.
+    fn same_wire_content(&self, a: usize, b: usize) -> bool {
+        let reqs = &self.v.trace.requests;
+        match (&reqs[a].packet, &reqs[b].packet) {
+            (Some(Packet::Publish(x)), Some(Packet::Publish(y))) => {
+                let eff = |r: &Request, p: &rc::Publish| {
+                    let t = &self.trs[self.v.trace.ops[r.op].tr];
+                    match t.max_qos {
+                        Some(m) if self.case.cfg.downgrade && p.qos > m => m,
+                        _ => p.qos,
+                    }
+                };
+                eff(&reqs[a], x) == eff(&reqs[b], y) && x.retain == y.retain && x.topic == y.topic && x.payload == y.payload && multiset_eq(&x.props, &y.props)
+            }
+            (x, y) => x == y,
+        }
+    }
+
+    /// Does the request have a twin with identical content in this session epoch whose operation
+    /// was cancelled or failed mid-way (so that it may or may not have been enqueued)?
+    fn has_uncertain_twin(&self, r: usize) -> bool {
+        let reqs = &self.v.trace.requests;
+        (0..reqs.len()).any(|q| {
+            q != r
+                && reqs[q].op >= self.epoch_first_op
+                && reqs[q].op < self.ops_started
+                && self.same_wire_content(q, r)
+                && matches!(self.v.trace.ops[reqs[q].op].res, OpRes::Cancelled { .. } | OpRes::Err(ErrKind::Transport))
+        })
+    }
+
     fn rebalance_class(&mut self, r: usize) {
         let reqs = &self.v.trace.requests;
         let members: Vec<usize> = (0..reqs.len())
             .filter(|&q| {
                 reqs[q].op >= self.epoch_first_op
                     && reqs[q].op < self.ops_started
-                    && reqs[q].packet == reqs[r].packet
+                    && self.same_wire_content(q, r)
                     && !matches!(&self.v.trace.ops[reqs[q].op].res, OpRes::Err(e) if Self::is_refusal(e))
             })
             .collect();
@@ -1090,8 +1115,10 @@ impl<'a> Model<'a> {
             Some(ri) => {
                 let r = &self.v.trace.requests[ri];
                 // order of first transmissions = order of requests
-                let later = self.flights.iter().any(|f| f.epoch == self.epoch && f.req.is_some_and(|q| self.v.trace.requests[q].op > r.op));
-                if later {
+                // (which of several identical requests a packet belongs to is a guess as soon as one
+                // of them was cancelled or failed mid-way: such classes are not judged)
+                let later = self.flights.iter().any(|f| f.epoch == self.epoch && f.req.is_some_and(|q| self.v.trace.requests[q].op > r.op && !self.has_uncertain_twin(q)));
+                if later && !self.has_uncertain_twin(ri) {
                     self.bad(if kind == FKind::Pub1 { "C02" } else { "C03" }, "C02/first-transmission-order", format!("transport {tr}: {what} id {pid} (op {}) first transmitted after a packet that was requested later", r.op));
                 }
                 let req_tr = self.v.trace.ops[r.op].tr;
